@@ -308,6 +308,18 @@ def run_cases(ctx, binp, prop, shards=8, extra=None, budget_s=900):
             elif l and not l.startswith("#"):
                 a, b = l.split("\t", 1)
                 gores[int(a)] = b
+    # a HANG / CRASH seen under load is re-checked alone with a 10x time limit before it is believed
+    suspicious = [i for i in sorted(gores) if gores[i].startswith(("HANG", "CRASH"))][:40]
+    for i in suspicious:
+        try:
+            p = subprocess.run([binp, prop, "-tmult", "10", "-one", cases[i]] + extra, cwd=ctx.work, env=GOENV,
+                               stdout=subprocess.PIPE, stderr=subprocess.STDOUT, text=True, errors="replace", timeout=600)
+            lines = [l for l in p.stdout.splitlines() if l.strip()]
+            if p.returncode == 0 and lines and not lines[0].startswith(("HANG", "PANIC")):
+                stats["rechecked_alone_ok"] = stats.get("rechecked_alone_ok", 0) + 1
+                gores[i] = lines[0]
+        except subprocess.TimeoutExpired:
+            pass
     return cases, gores, stats, results
 
 
